@@ -18,6 +18,10 @@ ops (slots are small integers; values are JSON numbers that are exactly represen
   ["unit_cube", nb, dim, centered] ["infinite", nb, dim] ["of_mesh", nb, [s...], pad] ["normalize", s, which]
   ["vec_ctor", name, n, sa, sb]        Vec.<name>(...) called twice with the same arguments; results -> caller arrays sa, sb
   ["setcomp", s, i, x]                 the caller writes arrs[s][i] = x
+The LAST element of an op may be a dict of call-form options: {"form": "o"|"p"|"k"} - the optional argument (which /
+padding / centered) is omitted / passed positionally / by keyword; {"sreps": [...]} - how each scalar argument is passed
+("f" float, "i" int, "n" np.float64, "m" np.int64, "3" np.float32, "b" np.bool_); {"store": s} - the returned array is
+kept by the caller as array s.
 A representation code says how a caller array is handed to the function: "a" the ndarray itself, "v" a Vec view
 of it, "l" a list, "t" a tuple, "c" a complex number (2-D only).  "fn" takes one code per argument; "box",
 "contains", "project", "distance", "pad_v", "ofpts" take them as an optional trailing string.
@@ -86,9 +90,37 @@ def scalar(x):
     return ["s", canon_float(x)]
 
 
-def call_fn(geom, Vec, name, A, which, sc):
+def as_scalar(x, r):
+    if r == "i":
+        return int(x)
+    if r == "n":
+        return np.float64(x)
+    if r == "m":
+        return np.int64(int(x))
+    if r == "3":
+        return np.float32(x)
+    if r == "b":
+        return np.bool_(x)
+    if r == "B":
+        return bool(x)
+    return float(x)
+
+
+def opt_args(form, name, value):
+    """(positional tail, keywords) for one optional argument"""
+    if form == "o" or value is None:
+        return (), {}
+    if form == "p":
+        return (value,), {}
+    return (), {name: value}
+
+
+def call_fn(geom, Vec, name, A, which, sc, form="k", sreps=()):
     """returns canonical result"""
-    kw = {} if which is None else {"which": which}
+    pos, kw = opt_args(form, "which", which)
+    if pos:
+        return call_fn_pos(geom, Vec, name, A, which)
+    sc = [as_scalar(x, (list(sreps) + ["f"] * len(sc))[i]) if name not in ("roots",) else x for i, x in enumerate(sc)]
     if name == "cross":
         return ["v", canon_vec(geom.cross(A[0], A[1]))]
     if name == "dot":
@@ -135,10 +167,10 @@ def call_fn(geom, Vec, name, A, which, sc):
         return ["s", canon_float(geom.triangle_area_2D(A[0], A[1], A[2]))]
     if name == "rot2d":
         a = float(sc[0])
-        return ["v", canon_vec(geom.rotate_2d(A[0], a)), math.cos(a), math.sin(a)]
+        return ["v", canon_vec(geom.rotate_2d(A[0], sc[0])), math.cos(a), math.sin(a)]
     if name == "rotaxis":
         a = float(sc[0])
-        return ["v", canon_vec(geom.rotate_around_axis(A[0], A[1], a)), math.cos(a), math.sin(a)]
+        return ["v", canon_vec(geom.rotate_around_axis(A[0], A[1], sc[0])), math.cos(a), math.sin(a)]
     if name == "rot2d2":
         a, b = float(sc[0]), float(sc[1])
         return ["vs", [canon_vec(geom.rotate_2d(geom.rotate_2d(A[0], a), b)), canon_vec(geom.rotate_2d(A[0], a + b))]]
@@ -154,30 +186,43 @@ def call_fn(geom, Vec, name, A, which, sc):
         return scalar(geom.distance_to_segment2D(A[0], A[1], A[2]))
     if name == "solve_quadratic":
         from mouette.utils import maths
-        return ["v", canon_vec(maths.solve_quadratic(float(sc[0]), float(sc[1]), float(sc[2])))]
+        return ["v", canon_vec(maths.solve_quadratic(sc[0], sc[1], sc[2]))]
     if name == "outer":
         m = Vec(A[0]).outer(A[1])
         return ["vs", [canon_vec(row) for row in np.asarray(m)]]
     if name == "axis_rot_from_z":
         return ["v", canon_vec(geom.axis_rot_from_z(A[0]))]
     if name == "sign0":
-        return ["s", canon_float(geom.sign0(float(sc[0])))]
+        return ["s", canon_float(geom.sign0(sc[0]))]
     if name == "sign":
-        return ["s", canon_float(geom.sign(float(sc[0])))]
+        return ["s", canon_float(geom.sign(sc[0]))]
     if name == "principal":
         from mouette.utils import maths
-        return ["s", canon_float(maths.principal_angle(float(sc[0])))]
+        return ["s", canon_float(maths.principal_angle(sc[0]))]
     if name == "angle_diff":
         from mouette.utils import maths
-        return ["s", canon_float(maths.angle_diff(float(sc[0]), float(sc[1])))]
+        return ["s", canon_float(maths.angle_diff(sc[0], sc[1]))]
     if name == "roots":
         from mouette.utils import maths
         c = complex(float(sc[0]), float(sc[1]))
-        n = int(sc[2])
+        n = as_scalar(sc[2], (list(sreps) + ["i"] * 3)[2]) if (list(sreps) + ["i"] * 3)[2] in ("i", "m") else int(sc[2])
         rs = maths.roots(c, n)
         r, t = cmath.polar(c)
         return ["roots", [[z.real, z.imag, cmath.phase(z)] for z in rs], t, r]
     raise RuntimeError("unknown function " + name)
+
+
+def call_fn_pos(geom, Vec, name, A, which):
+    """the primitives that take `which`, with it passed positionally"""
+    if name == "norm":
+        return ["s", canon_float(geom.norm(A[0], which))]
+    if name == "vnorm":
+        return ["s", canon_float(Vec(A[0]).norm(which))]
+    if name == "distance":
+        return ["s", canon_float(geom.distance(A[0], A[1], which))]
+    if name == "normalized":
+        return ["v", canon_vec(Vec.normalized(A[0], which))]
+    raise RuntimeError("positional `which` for " + name)
 
 
 def run_prog(prog):
@@ -219,6 +264,11 @@ def run_prog(prog):
         return al
 
     for op in prog["ops"]:
+        opt = {}
+        if isinstance(op[-1], dict):
+            opt, op = op[-1], op[:-1]
+        form = opt.get("form", "k")
+        sreps = opt.get("sreps", [])
         kind = op[0]
         if kind == "arr":
             arrs[op[1]] = np.array(op[2], dtype=float if op[3] == "f" else int)
@@ -263,9 +313,13 @@ def run_prog(prog):
                         pts = [p_.tolist() for p_ in pts]
                     elif rr == "v" and pts:
                         pts = np.array(pts)
-                    newbox = (op[1], AABB.of_points(pts, float(op[3])))
+                    pos, kw = opt_args(form, "padding", as_scalar(op[3], (sreps + ["f"])[0]))
+                    newbox = (op[1], AABB.of_points(pts, *pos, **kw))
                 elif kind == "unit_cube":
-                    newbox = (op[1], AABB.unit_cube(int(op[2]), bool(op[3])))
+                    s0 = sreps[0] if len(sreps) > 0 else "i"
+                    s1 = sreps[1] if len(sreps) > 1 else "B"
+                    pos, kw = opt_args(form, "centered", as_scalar(op[3], s1))
+                    newbox = (op[1], AABB.unit_cube(as_scalar(op[2], s0), *pos, **kw))
                 elif kind == "infinite":
                     newbox = (op[1], AABB.infinite(int(op[2])))
                 elif kind == "vec_ctor":
@@ -285,12 +339,14 @@ def run_prog(prog):
                     mesh = M.mesh.from_arrays(np.array([arrs[s] for s in op[2]], dtype=float))
                     meshes.append((mesh, None))
                     a0, b0 = snap()
-                    newbox = (op[1], AABB.of_mesh(mesh, float(op[3])))
+                    pos, kw = opt_args(form, "padding", as_scalar(op[3], (sreps + ["f"])[0]))
+                    newbox = (op[1], AABB.of_mesh(mesh, *pos, **kw))
                 elif kind == "normalize":
-                    res = arrs[op[1]].view(Vec).normalize(op[2]) if op[2] is not None else arrs[op[1]].view(Vec).normalize()
+                    pos, kw = opt_args(form, "which", op[2])
+                    res = arrs[op[1]].view(Vec).normalize(*pos, **kw)
                     r = ["v", canon_vec(arrs[op[1]])] if res is None else ["other", repr(res)]
                 elif kind == "pad_s":
-                    res = boxes[op[1]].pad(float(op[2]))
+                    res = boxes[op[1]].pad(as_scalar(op[2], (sreps + ["f"])[0]))
                     r = ["none"] if res is None else ["other", repr(res)]
                 elif kind == "pad_v":
                     res = boxes[op[1]].pad(R(op[2], reps(3, 1)))
@@ -301,7 +357,8 @@ def run_prog(prog):
                 elif kind == "project":
                     r = ["v", canon_vec(boxes[op[1]].project(R(op[2], reps(3, 1))))]
                 elif kind == "distance":
-                    r = ["s", canon_float(boxes[op[1]].distance(R(op[2], reps(4, 1)), op[3]))]
+                    pos, kw = opt_args(form, "which", op[3])
+                    r = ["s", canon_float(boxes[op[1]].distance(R(op[2], reps(4, 1)), *pos, **kw))]
                 elif kind == "union":
                     newbox = (op[1], AABB.union(boxes[op[2]], boxes[op[3]]))
                 elif kind == "inter":
@@ -311,12 +368,22 @@ def run_prog(prog):
                 elif kind == "is_empty":
                     r = ["b", bool(boxes[op[1]].is_empty())]
                 elif kind == "span":
-                    r = ["v", canon_vec(boxes[op[1]].span)]
+                    res = boxes[op[1]].span
+                    r = ["v", canon_vec(res)]
+                    if "store" in opt:
+                        arrs[opt["store"]] = res
+                        ids0[opt["store"]] = id(res)
+                        a0, b0 = snap()
                 elif kind == "center":
-                    r = ["v", canon_vec(boxes[op[1]].center)]
+                    res = boxes[op[1]].center
+                    r = ["v", canon_vec(res)]
+                    if "store" in opt:
+                        arrs[opt["store"]] = res
+                        ids0[opt["store"]] = id(res)
+                        a0, b0 = snap()
                 elif kind == "fn":
                     rr = (list(op[5]) if len(op) > 5 and op[5] else []) + ["a"] * len(op[2])
-                    r = call_fn(geom, Vec, op[1], [R(s, rr[i]) for i, s in enumerate(op[2])], op[3], op[4])
+                    r = call_fn(geom, Vec, op[1], [R(s, rr[i]) for i, s in enumerate(op[2])], op[3], op[4], form, sreps)
                 else:
                     raise RuntimeError("unknown op " + kind)
                 if newbox is not None:
